@@ -304,7 +304,37 @@ def fx7():
     return Fixture(fr, [((8, 5), True), ((8, 5), False), ((6, 4), True)], ops, describe, widgets)
 
 
-FIXTURES = [("frame-icons", fx7), ("frame-listbox", fx1), ("filler-pile", fx2), ("overlay", fx3), ("scrollbar", fx4), ("padding", fx5), ("twice-uncached", fx6)]
+def fx8():
+    """one item widget shown by two list boxes over the same walker (two panes), and one Text shown under two unrelated parents"""
+    e = urwid.Edit("", "ed")
+    t = urwid.Text("shared")
+    walker = urwid.SimpleFocusListWalker([e, urwid.Text("row2")])
+    lb1 = urwid.ListBox(walker)
+    lb2 = urwid.ListBox(walker)
+    p1 = urwid.Pile([t])
+    p2 = urwid.Padding(t, left=1)
+    top = urwid.Pile([("weight", 1, urwid.Columns([lb1, lb2])), ("pack", p1), ("pack", p2)])
+    S = (12, 5)
+    ops = {
+        "key x": lambda: top.keypress(S, "x"),
+        "key backspace": lambda: top.keypress(S, "backspace"),
+        "e.set_edit_text": lambda: e.set_edit_text("EDIT" if e.edit_text != "EDIT" else "ed"),
+        "t.set_text": lambda: t.set_text("SHARED!" if t.text == "shared" else "shared"),
+        "key right": lambda: top.keypress(S, "right"),
+        "key left": lambda: top.keypress(S, "left"),
+        "walker.append": lambda: walker.append(urwid.Text("more")) if len(walker) < 4 else None,
+        "walker.pop": lambda: walker.pop() if len(walker) > 1 else None,
+    }
+    widgets = [top, lb1, lb2, p1, p2, e, t]
+
+    def describe():
+        cols = top.contents[0][0]
+        return (e.edit_text, e.edit_pos, t.text, len(walker), cols.focus_position, walker.focus)
+
+    return Fixture(top, [((12, 5), True), ((12, 5), False), ((8, 4), True)], ops, describe, widgets)
+
+
+FIXTURES = [("frame-icons", fx7), ("shared-children", fx8), ("frame-listbox", fx1), ("filler-pile", fx2), ("overlay", fx3), ("scrollbar", fx4), ("padding", fx5), ("twice-uncached", fx6)]
 
 
 def snapshot(c):
